@@ -152,7 +152,7 @@ func (p *purity) fresh(v ssa.Value, depth int) (bool, string) {
 }
 
 func checkC09(c *Ctx) {
-	c.explanation = "Static decision on the SSA of mpc/bls and mpc/ps of: (M1) in everything reachable from the verification, signing, unblinding and proving entry points, the receiver of every mathlib mutator (pointer-receiver method without results, read from the dependency's method set: Add, Sub, Mod, InvModP, …) is a freshly allocated object (result of an operator/constructor call, or an element of a slice built in the same function from such results), never a parameter, a field, an element of shared storage or a global; the only stores into parameter-reachable memory are decoders filling a local the caller just allocated; (G1) in SignBlindSignature every use of the share is dominated by the nil arm of the request proof's Verify; (V1) for both Fiat–Shamir oracles every group-element operand of the frozen table flows into hash.Write, the verifiers pass the object's own fields / their own parameters in those positions, and the challenge feeds every checked equation; (V2) every error of an inner check or of point parsing is branched on and returned; (D1) BLS aggregation takes evaluation points from the party→point table built by Init. Soundness of the pairing equations/proofs, fewer-than-t and cross-session substitution are algebra and are not decided."
+	c.explanation = "Static decision on the SSA of mpc/bls and mpc/ps of: (M1) in everything reachable from the verification, signing, unblinding and proving entry points, the receiver of every mathlib mutator (pointer-receiver method without results, read from the dependency's method set: Add, Sub, Mod, InvModP, …) is a freshly allocated object (result of an operator/constructor call, or an element of a slice built in the same function from such results), never a parameter, a field, an element of shared storage or a global; the only stores into parameter-reachable memory are decoders filling a local the caller just allocated; (G1) in SignBlindSignature every use of the share is dominated by the nil arm of the request proof's Verify; (V1) for both Fiat–Shamir oracles — found by their role: functions of several group elements whose result is, or is turned by every caller into, a HashToZr challenge — every group-element operand (a parameter or a field of a parameter object; frozen count and one frozen exclusion) flows into the hashed bytes, the verifiers pass the object's own fields / their own parameters in those positions, and the challenge feeds every checked equation; (V2) every error of an inner check or of point parsing is branched on and returned; (D1) BLS aggregation takes evaluation points from the party→point table built by Init. Soundness of the pairing equations/proofs, fewer-than-t and cross-session substitution are algebra and are not decided."
 	c.notDecided = "soundness of the pairing equations and proofs; fewer than t shares; cross-session substitution"
 	c.Assume("mathlib: methods with results return newly allocated values; pointer-receiver methods without results modify their receiver only")
 	const M1, G1, V1, V2, D1 = "C09.M1", "C09.G1", "C09.V1", "C09.V2", "C09.D1"
@@ -505,13 +505,7 @@ func checkC09PS(c *Ctx, m *Module, sl *Slicer) {
 		if fn.Parent() != nil {
 			continue
 		}
-		nG := 0
-		for _, p := range fn.Params {
-			if isGroupType(p.Type()) {
-				nG++
-			}
-		}
-		if nG < 3 {
+		if len(oracleOperands(fn)) < 3 {
 			continue
 		}
 		// the challenge (a scalar) or the digest it is made from (bytes) is what the function returns
@@ -595,23 +589,21 @@ func checkC09PS(c *Ctx, m *Module, sl *Slicer) {
 		// every group-element parameter of the oracle flows into the hashed bytes (frozen exclusion by
 		// position: the recorded blinding oracle's last parameter gs, a locally derived public parameter)
 		nGroup := 0
-		for i, p := range fn.Params {
-			if !isGroupType(p.Type()) {
-				continue
-			}
-			if o.name == "randomOracleForBlindingProof" && i == len(fn.Params)-1 {
-				if _, isSlice := p.Type().Underlying().(*types.Slice); isSlice {
+		ops := oracleOperands(fn)
+		for k, op := range ops {
+			if o.name == "randomOracleForBlindingProof" && k == len(ops)-1 {
+				if _, isSlice := op.typ().Underlying().(*types.Slice); isSlice {
 					continue
 				}
 			}
 			nGroup++
 			ok := false
 			for _, h := range orc.hashed {
-				if sl.Slice(h)[p] {
+				if op.in(sl.Slice(h)) {
 					ok = true
 				}
 			}
-			c.Check(ok, V1, FuncName(fn), fmt.Sprintf("operand #%d is hashed", i), m.Pos(fn.Pos()), "flows into the bytes hashed to the challenge", fmt.Sprintf("the challenge does not depend on operand #%d (%s): the prover can choose it after seeing the challenge", i, p.Name()))
+			c.Check(ok, V1, FuncName(fn), fmt.Sprintf("operand #%d is hashed", k+op.shift), m.Pos(fn.Pos()), "flows into the bytes hashed to the challenge", fmt.Sprintf("the challenge does not depend on operand #%d (%s): the prover can choose it after seeing the challenge", k+op.shift, op.name()))
 		}
 		if o.name != "" && nGroup != len(o.params) {
 			c.Bad(V1, FuncName(fn), "operand count", m.Pos(fn.Pos()), fmt.Sprintf("the oracle has %d group-element operands, the frozen table lists %d", nGroup, len(o.params)))
@@ -627,13 +619,28 @@ func checkC09PS(c *Ctx, m *Module, sl *Slicer) {
 			isGroup := isGroupType
 			argSet := map[ssa.Value]bool{}
 			distinct := true
+			addArg := func(sa ssa.Value) {
+				if argSet[sa] {
+					distinct = false
+				}
+				argSet[sa] = true
+			}
 			for _, a := range cs.Common().Args {
 				sa := strip(a)
 				if isGroup(sa.Type()) {
-					if argSet[sa] {
-						distinct = false
+					addArg(sa)
+					continue
+				}
+				// a parameter object built at the call: its group-element fields are the operands
+				if st, isS := sa.Type().Underlying().(*types.Struct); isS && !isGroup(sa.Type()) {
+					for i := 0; i < st.NumFields(); i++ {
+						if !isGroup(st.Field(i).Type()) {
+							continue
+						}
+						if fv := structFieldValue(sa, st.Field(i), 0); fv != nil {
+							addArg(strip(fv))
+						}
 					}
-					argSet[sa] = true
 				}
 			}
 			c.Check(distinct, V1, FuncName(caller), "oracle operands pairwise distinct", m.Pos(cs.Pos()), "no value passed in two positions", "the same value is hashed in two positions of the oracle: some other value the verifier checks is then not bound by the challenge")
@@ -823,4 +830,110 @@ func onlyLenUses(v ssa.Value, depth int) bool {
 		}
 	}
 	return true
+}
+
+// oracleOperand: a group-element operand of a Fiat–Shamir oracle — a parameter of group type, or a
+// group-typed field of a parameter object (a struct of the package passed by value).
+type oracleOperand struct {
+	p     *ssa.Parameter
+	f     *types.Var // nil: the parameter itself
+	shift int        // reported ordinal = position in the operand list + shift (parameter index when no object is used)
+}
+
+func (o oracleOperand) typ() types.Type {
+	if o.f != nil {
+		return o.f.Type()
+	}
+	return o.p.Type()
+}
+
+func (o oracleOperand) name() string {
+	if o.f != nil {
+		return o.p.Name() + "." + o.f.Name()
+	}
+	return o.p.Name()
+}
+
+// in: the operand is among the values a slice depends on.
+func (o oracleOperand) in(s map[ssa.Value]bool) bool {
+	if o.f == nil {
+		return s[o.p]
+	}
+	isObj := func(v ssa.Value) bool {
+		noParamLook++
+		defer func() { noParamLook-- }()
+		v = strip(v)
+		if v == ssa.Value(o.p) {
+			return true
+		}
+		// the parameter spilled to a local cell
+		var cell *ssa.Alloc
+		switch x := v.(type) {
+		case *ssa.Alloc:
+			cell = x
+		case *ssa.UnOp:
+			if a, ok := x.X.(*ssa.Alloc); ok && x.Op == token.MUL {
+				cell = a
+			}
+		}
+		if cell == nil || cell.Referrers() == nil {
+			return false
+		}
+		for _, r := range *cell.Referrers() {
+			if st, ok := r.(*ssa.Store); ok && st.Addr == ssa.Value(cell) && st.Val == ssa.Value(o.p) {
+				return true
+			}
+		}
+		return false
+	}
+	for v := range s {
+		switch x := v.(type) {
+		case *ssa.Field:
+			if st, ok := x.X.Type().Underlying().(*types.Struct); ok && x.Field < st.NumFields() && st.Field(x.Field) == o.f && isObj(x.X) {
+				return true
+			}
+		case *ssa.FieldAddr:
+			if fieldOfAddr(x) == o.f && isObj(x.X) {
+				return true
+			}
+		}
+	}
+	return false
+}
+
+func oracleOperands(fn *ssa.Function) []oracleOperand {
+	var out []oracleOperand
+	flat := true
+	for _, p := range fn.Params {
+		if isGroupType(p.Type()) {
+			continue
+		}
+		if st, ok := p.Type().Underlying().(*types.Struct); ok && namedOf(p.Type()) != nil && namedOf(p.Type()).Obj().Pkg() == fn.Pkg.Pkg {
+			for i := 0; i < st.NumFields(); i++ {
+				if isGroupType(st.Field(i).Type()) {
+					flat = false
+				}
+			}
+		}
+	}
+	for i, p := range fn.Params {
+		if isGroupType(p.Type()) {
+			sh := 0
+			if flat {
+				sh = i - len(out)
+			}
+			out = append(out, oracleOperand{p: p, shift: sh})
+			continue
+		}
+		st, ok := p.Type().Underlying().(*types.Struct)
+		if !ok || namedOf(p.Type()) == nil || namedOf(p.Type()).Obj().Pkg() != fn.Pkg.Pkg {
+			continue
+		}
+		for k := 0; k < st.NumFields(); k++ {
+			if isGroupType(st.Field(k).Type()) {
+				out = append(out, oracleOperand{p: p, f: st.Field(k)})
+			}
+		}
+	}
+	return out
 }
